@@ -73,6 +73,20 @@ func rsC18Enum() []*rsScenario {
 					{Attempts: []rsAttempt{acc(true)}},
 					{Attempts: []rsAttempt{acc(true)}}},
 					Faults: []rsFault{{0, rq.idx, cut}, {1, ridx, sk}}})
+				// second retransmission: two cuts, silence on the third connection
+				out = append(out, &rsScenario{Note: "silent drop on a second retransmission", Timeout: true, MethodB: mb, Phases: []rsPhase{
+					{Attempts: []rsAttempt{acc(false)}, Ops: []rsOp{rq.op}, IdleCut: true},
+					{Attempts: []rsAttempt{acc(true)}, IdleCut: true},
+					{Attempts: []rsAttempt{acc(true)}},
+					{Attempts: []rsAttempt{acc(true)}}},
+					Faults: []rsFault{{0, rq.idx, cut}, {1, 0, fLostAfter}, {2, 0, sk}}})
+				// ... and after a retransmission that itself timed out
+				out = append(out, &rsScenario{Note: "silent drops on two consecutive retransmissions", Timeout: true, MethodB: mb, Phases: []rsPhase{
+					{Attempts: []rsAttempt{acc(false)}, Ops: []rsOp{rq.op}, IdleCut: true},
+					{Attempts: []rsAttempt{acc(true)}},
+					{Attempts: []rsAttempt{acc(true)}},
+					{Attempts: []rsAttempt{acc(true)}}},
+					Faults: []rsFault{{0, rq.idx, cut}, {1, 0, sk}, {2, 0, sk}}})
 				// deferred first transmission behind a failed request
 				op2 := rq.op
 				op2.UID = 2
